@@ -20,7 +20,10 @@ BigTokens == <<"2147483648", "4294967296", "9007199254740993", "1844674407370955
 AllocFree == {"EMA", "ATR", "MACD", "PPO", "RSI", "KC"}
 
 \* multipliers as <<token understood by the harness, text that Rust's Display prints for the f64>>
-Mults == {<<"2", "2">>, <<"0", "0">>, <<"-1", "-1">>, <<"0.5", "0.5">>, <<"3", "3">>, <<"NaN", "NaN">>, <<"1000", "1000">>, <<"-0.0", "-0">>}
+Mults == {<<"2", "2">>, <<"0", "0">>, <<"-1", "-1">>, <<"0.5", "0.5">>, <<"3", "3">>, <<"NaN", "NaN">>, <<"1000", "1000">>, <<"-0.0", "-0">>,
+          \* multipliers that need all 17 significant digits, or lie outside the single-precision range
+          <<"2.123456789", "2.123456789">>, <<"0.30000000000000004", "0.30000000000000004">>, <<"inf", "inf">>,
+          <<"1e-60", "0.000000000000000000000000000000000000000000000000000000000001">>}
 NoMult == <<"", "">>
 
 \* a period argument is a string of decimal digits
